@@ -5,6 +5,7 @@ from fractions import Fraction as Fr
 
 import numpy as np
 
+import math
 import common as C
 
 HEADER = """From Coq Require Import QArith List Bool.
@@ -26,6 +27,8 @@ def run(res, replay=None):
     import translate_step; (res.proof is not None) and translate_step.run(res.proof, pid=res.pid, tie='inference')
     # pinned reading of phasegen/utils.py (parallelize returns the runs in the order of their start values): re-check the CURRENT source against it and proofs/GenUtilsEquiv.v
     import translate_step; (res.proof is not None) and translate_step.run(res.proof, pid=res.pid, tie='utils')
+    # pinned reading of the loss classes (phasegen/norms.py: LNorm.compute and the three named norms): re-check the CURRENT source against it and proofs/GenNormsEquiv.v
+    import translate_step; (res.proof is not None) and translate_step.run(res.proof, pid=res.pid, tie='norms')
     rng = random.Random(res.seed)
     res.rule = ('inference stream: tiny identifiable models (one or two size parameters, n in {3,4}, L2 loss on height and '
                 'branch length or Poisson likelihood on the SFS, noise-free data), seeds, 1-3 runs, with/without explicit '
@@ -108,6 +111,16 @@ def run(res, replay=None):
                 if rw['rows_added'] != 3 or rw['first_column'] != pl['rows'][0]['first_column']:
                     res.violation(f"add_bootstraps given a {rw['how']} does not append exactly one row per element",
                                   {'case': c, 'observed': rw, 'one_by_one': pl['rows'][0]})
+        for nv in r.get('norms', []):
+            res.count(key + ':norms')
+            d_ = [x - y for x, y in zip(nv['a'], nv['b'])]
+            exp = {'l1': sum(abs(x) for x in d_), 'l2': math.sqrt(sum(x * x for x in d_)), 'linf': max(abs(x) for x in d_)}
+            exp.update(lnorm1=exp['l1'], lnorm_inf=exp['linf'])
+            for k_, e_ in exp.items():
+                if not (abs(nv[k_] - e_) <= 1e-12 * max(1.0, abs(e_))) or (nv['a'] == nv['b'] and nv[k_] != 0.0):
+                    res.violation('loss class of norms.py: value differs from the norm of the difference (reading of gen/NormsGen.v) / is not exactly 0 at a perfect fit',
+                                  {'case': c, 'norm': k_, 'a': nv['a'], 'b': nv['b'], 'observed': nv[k_], 'expected': e_})
+                    break
         pfm = r['perfect']
         for tag, mgd, a_, b_ in (('perfect fit + worse run', pfm['merged'], pfm['before'], pfm['other']),
                                  ('worse run + perfect fit', pfm['merged_reverse'], pfm['other'], pfm['before'])):
